@@ -803,7 +803,10 @@ def buildCore (fuel : Nat) (parseRoot : Nat) (parseTree : Array ParseNode) (data
 /-- `build(parse_root, parse_tree, data)`: `Ok(BuildData { jump_index, .. })` is `.ok (data', jump_index)` -/
 def build (fuel : Nat) (parseRoot : Nat) (parseTree : Array ParseNode) (data : BState F) : Outcome (BState F × Nat) :=
   if parseTree.isEmpty then
-    .ok (pushInstr data .endExpression none none, 0)
+    -- the empty program gets its own jump entry (fix commit), then its EndExpression
+    let jumpIndex := getJumpTableLen data
+    let data := pushToJumpTable data (getInstructionLen data)
+    .ok (pushInstr data .endExpression none none, jumpIndex)
   else
     -- validate_parse_tree(parse_root, &parse_tree)?;
     Outcome.bind (validateParseTree parseRoot parseTree) fun _ =>
